@@ -183,6 +183,40 @@ pub fn run_c06(cfg: &Cfg) -> Report {
             cx.rep.distinct(&("nested", ko, ki, pad));
         }
     }));
+    // term lists carry no element count: every list-taking object with more children than a byte could count
+    let many: [usize; 8] = [254, 255, 256, 257, 300, 511, 512, 700];
+    rep.merge(par_cases(cfg, "aml.many_children", 10 * many.len() as u64, |cx| {
+        let kind = (cx.idx / many.len() as u64) as usize;
+        let n = many[(cx.idx % many.len() as u64) as usize];
+        let mut r = cx.rng.clone();
+        let kids: Vec<Term> = (0..n)
+            .map(|_| match r.below(5) {
+                0 => Term::Zero,
+                1 => Term::One,
+                2 => Term::Ones,
+                3 => Term::U8(r.u8b()),
+                _ => Term::U16(r.u16b()),
+            })
+            .collect();
+        let path = PathT { root: r.bool(), segs: vec![gen_seg(&mut r)] };
+        let t = match kind {
+            0 => Term::Device(path, kids),
+            1 => Term::Scope(path, kids),
+            2 => Term::ScopeRaw(path, kids),
+            3 => Term::Method { path, args: r.below(8) as u8, serialized: r.bool(), body: kids },
+            4 => Term::If(Box::new(Term::One), kids),
+            5 => Term::Else(kids),
+            6 => Term::While(Box::new(Term::One), kids),
+            7 => Term::PowerResource { path, level: r.u8b(), order: r.u16b(), body: kids },
+            8 => Term::ResourceTemplate((0..n).map(|_| crate::amlref::gen::gen_res(&mut r)).collect()),
+            _ => Term::Field { path, access: 0, lock: 0, update: 0, entries: crate::amlref::gen::gen_field_entries_n(&mut r, n) },
+        };
+        cx.eval();
+        if check_term(cx, &t, false).is_some() {
+            cx.rep.cov("list_object_with_more_children_than_a_byte_counts");
+            cx.rep.distinct(&("many", kind, n));
+        }
+    }));
     // coverage floor: every exported constructor and every (length-prefixed kind x PkgLength width
     // reachable in this tier) cell must have been observed
     if cfg.replay.is_none() && !cfg.mini && cfg.scale_pct >= 100 && rep.violation_count == 0 {
@@ -500,6 +534,9 @@ pub fn run_c15(cfg: &Cfg) -> Report {
             1 => 1,
             2 => 254,
             3 => 255,
+            // more children than a one-byte count could hold: legal for a scope (term lists carry no
+            // count), compared for Scope::new / Scope::raw only
+            4 if cx.idx % 3 == 0 => *r.pick(&[256usize, 257, 300, 511, 512, 600]),
             _ => r.below(12) as usize,
         };
         let mut budget = 60i64;
@@ -516,6 +553,7 @@ pub fn run_c15(cfg: &Cfg) -> Report {
         if cx.idx % 9 == 0 && elems.len() < 250 {
             let at = r.usize_below(elems.len() + 1);
             elems.insert(at, Term::Empty);
+            cx.fringe = true; // nothing promises that an empty field name is accepted
             cx.rep.cov("list_with_zero_byte_element");
         }
         cx.eval();
@@ -525,6 +563,11 @@ pub fn run_c15(cfg: &Cfg) -> Report {
         let b = build_bytes(&Term::ScopeRaw(path.clone(), elems.clone()), false);
         if a != b {
             cx.violation(format!("Scope::raw and Scope::new differ for {} generated children", count), obj(vec![("children", J::Str(format!("{:?}", elems).chars().take(800).collect()))]));
+            return;
+        }
+        if count > 255 {
+            cx.rep.cov("scope_with_more_than_255_children");
+            cx.rep.distinct(&(count, hash_bytes(&a)));
             return;
         }
         let p1 = build_bytes(&Term::Package(elems.clone()), false);
